@@ -103,6 +103,11 @@ func jrnFlow(c *ctx, rel string, n ast.Node, calls map[string]bool) []string {
 			if calls[nm] {
 				out = append(out, "call "+nm)
 			}
+		case *ast.AssignStmt:
+			// the recovery-state flag of processJournalRecordsReader
+			if len(v.Lhs) == 1 && len(v.Rhs) == 1 && exprName(v.Lhs[0]) == "recovered" {
+				out = append(out, "set recovered = "+exprName(v.Rhs[0]))
+			}
 		}
 		return true
 	})
